@@ -68,6 +68,9 @@ def strategy(tier: str, pid: str = "C15") -> st.SearchStrategy[Any]:
         "req": batsys.request_strategy(),
         "outcomes": outcomes,
         "latency": latency,
+        # a quarter of the battery cases keep the SDK's own pool status tracker and let the inverter of a failing call
+        # report an error state while the calls are in flight
+        "real_tracker": st.sampled_from([False, False, False, True]),
     })
     bound = st.one_of(st.sampled_from([0.0, 100.0, 1000.0]), st.integers(1, 5000).map(float), st.floats(0.0, 5000.0))
     pv = st.fixed_dictionaries({
@@ -148,7 +151,10 @@ def _run_battery(case: dict[str, Any], v: Verdict, enum_limit: int) -> None:
     v.labels.add("battery")
 
     async def scenario() -> None:
-        async with batsys.ManagerWorld(case["groups"]) as mw:
+        real = bool(case.get("real_tracker"))
+        if real:
+            v.labels.add("real_pool_status_tracker")
+        async with batsys.ManagerWorld(case["groups"], real_tracker=real) as mw:
             inv_bats = {}
             for bids, iids in mw.ids:
                 for i in iids:
@@ -169,8 +175,21 @@ def _run_battery(case: dict[str, Any], v: Verdict, enum_limit: int) -> None:
                 if len({lat_by_inv[c] for c in order}) > 1 and any(o != "ok" for o in vec) and "ok" in vec:
                     v.labels.add("mixed_outcomes_with_different_latencies")
                 await mw.feed()
-                await world.settle()
-                result = await mw.request(power, adjust_power=True)
+                await world.settle(3 if real else 1)
+                if real:
+                    # status change in mid-flight: the inverter of a failing, slow call reports an error state
+                    victims = [c for c in order if by_inv[c] not in ("ok",) and lat_by_inv[c] > 0]
+                    pending_req = asyncio.create_task(mw.request(power, adjust_power=True))
+                    await asyncio.sleep(0.005)
+                    if victims and not pending_req.done():
+                        from frequenz.client.microgrid import InverterComponentState  # pylint: disable=import-outside-toplevel
+
+                        await mw.api.send(victims[0], fakes.inverter_data(
+                            victims[0], world.now(), component_state=InverterComponentState.ERROR))
+                        v.labels.add("component_turns_not_working_while_its_call_is_in_flight")
+                    result = await pending_req
+                else:
+                    result = await mw.request(power, adjust_power=True)
                 calls = list(mw.api.set_power_calls)
                 outs = list(mw.api.set_power_outcomes)
                 addressed = set()
